@@ -72,7 +72,8 @@ func (m *Machine) siteString() string {
 		return "?"
 	}
 	// accesses made by harness code itself (stubs, models, ghost state) are not the subject
-	if top := t.stack[len(t.stack)-1]; strings.Contains(top.Name(), "erif") {
+	// (the harness's http.ResponseWriter is transparent: what it reads of the handler's data is the handler's read)
+	if top := t.stack[len(t.stack)-1]; strings.Contains(top.Name(), "erif") && !strings.Contains(top.String(), "verifRW") {
 		return ""
 	}
 	// innermost module function (not harness)
